@@ -355,7 +355,9 @@ def _check_row(ctx, get_module, row, rule, cfg):
                     problems.append(("violation", "argument %d of the call to %s is not %s" % (k, row["call"], json.dumps(spec)), ci))
     for label, assume, assume_def, pairs, start in runs:
         pl = WritePlugin(m, f, out_idx if out_idx is not None else must_idx, stop_on_success=not (expect_zero or expect_true or row.get("expect_in")))
-        ex = Explorer(f, assume=assume, assume_def=assume_def, plugin=pl, pairs=pairs, start_block=start or 0).run()
+        ex = Explorer(f, assume=assume, assume_def=assume_def, plugin=pl, pairs=pairs, start_block=start or 0)
+        ex.seed_dominating = True
+        ex.run()
         nrets += len(ex.rets)
         if not ex.rets:
             problems.append(("broken", "under '%s' no return is reachable (engine lost the path)" % label, None))
